@@ -141,6 +141,42 @@ s = must_replace(s, "func retake(now int64) uint32 {\n	n := 0\n", "func retake(n
 # with sysmon's preemption disabled runnext must be avoided anyway (see the
 # runtime's own comment in runqput)
 s = must_replace(s, "func runqput(pp *p, gp *g, next bool) {\n	if !haveSysmon && next {", "func runqput(pp *p, gp *g, next bool) {\n	if (!haveSysmon || verifRandState != 0) && next {", "proc.go runqput")
+# The scheduler looks at the global run queue on every 61st scheduling round of the P,
+# and that counter also ticks for goroutines driven by real time (scavenger, sysmon
+# wake-ups). runtime.Gosched puts the yielding goroutine on the global queue, so which
+# of its peers run before it resumes would depend on real time in 1 of 61 cases. In a
+# seeded run a yielding goroutine goes to the back of the local queue and the global
+# queue is only consulted when the local one is empty.
+s = must_replace(s, "	if pp.schedtick%61 == 0 && !sched.runq.empty() {", "	if verifRandState == 0 && pp.schedtick%61 == 0 && !sched.runq.empty() {", "proc.go schedtick")
+s = must_replace(s, """	} else {
+		lock(&sched.lock)
+		globrunqput(gp)
+		unlock(&sched.lock)
+	}
+
+	if mainStarted {
+		wakep()
+	}
+
+	schedule()
+}
+
+// Gosched continuation on g0.""", """	} else if verifRandState != 0 {
+		runqput(pp, gp, false) // simulation overlay
+	} else {
+		lock(&sched.lock)
+		globrunqput(gp)
+		unlock(&sched.lock)
+	}
+
+	if mainStarted {
+		wakep()
+	}
+
+	schedule()
+}
+
+// Gosched continuation on g0.""", "proc.go goschedImpl")
 open(os.path.join(out, "proc.go.txt"), "w").write(s)
 
 # sema.go: sync.Mutex switches to starvation mode after 1 ms of REAL waiting time,
